@@ -17,6 +17,7 @@ package verif
 
 import (
 	"crypto"
+	"crypto/ecdh"
 	"crypto/ecdsa"
 	"crypto/elliptic"
 	"crypto/rsa"
@@ -25,6 +26,7 @@ import (
 	"io"
 	"math/big"
 	"reflect"
+	"unsafe"
 )
 
 // ---------- hashes ----------
@@ -136,6 +138,10 @@ type modelRand struct{}
 
 func (modelRand) Read(p []byte) (int, error) {
 	copy(p, Fresh("rand", len(p)))
+	if Ghost("rand-top-nonzero") != nil && len(p) > 0 {
+		// bound: random values have no leading zero byte (stated by the harness that sets the flag)
+		Assume(p[0] != 0)
+	}
 	return len(p), nil
 }
 
@@ -633,3 +639,148 @@ func M_NewCBCDecrypter(b cipherBlock, iv []byte) cipherBlockMode {
 	}
 	return &ModelCBC{Key: blockKey(b), IV: append([]byte{}, iv...), Dec: true}
 }
+
+// ---------- crypto/ecdh ----------
+//
+// A private key is n fresh bytes D; its public point is 0x04 || PUB(D) with PUB
+// injective; the shared secret is a symmetric function of the two public
+// points (dh(a, pub b) = dh(b, pub a)). *ecdh.PrivateKey / *ecdh.PublicKey
+// values are pointers to the model structs below (the repository code only
+// passes them around and calls the methods replaced here).
+
+type ModelECDHCurve struct {
+	Name string
+	N    int
+}
+
+type ModelECDHPriv struct {
+	C   *ModelECDHCurve
+	D   []byte
+	Pub *ModelECDHPub
+}
+
+type ModelECDHPub struct {
+	C *ModelECDHCurve
+	B []byte // 0x04 || X || Y
+}
+
+var mECDH256, mECDH384 *ModelECDHCurve
+
+func M_ECDH_P256() any {
+	if mECDH256 == nil {
+		mECDH256 = &ModelECDHCurve{Name: "P-256", N: 32}
+	}
+	return mECDH256
+}
+func M_ECDH_P384() any {
+	if mECDH384 == nil {
+		mECDH384 = &ModelECDHCurve{Name: "P-384", N: 48}
+	}
+	return mECDH384
+}
+
+func (c *ModelECDHCurve) mkPriv(d []byte) *ecdh.PrivateKey {
+	pub := &ModelECDHPub{C: c, B: append([]byte{4}, OracleInj("ecdh-pub-"+c.Name, 2*c.N, d)...)}
+	// a generated key's public point is on the curve
+	Assume(OracleBool("ecdh-oncurve-"+c.Name, pub.B))
+	return (*ecdh.PrivateKey)(unsafe.Pointer(&ModelECDHPriv{C: c, D: append([]byte{}, d...), Pub: pub}))
+}
+
+func (c *ModelECDHCurve) GenerateKey(rand io.Reader) (*ecdh.PrivateKey, error) {
+	d := make([]byte, c.N)
+	if _, err := io.ReadFull(rand, d); err != nil {
+		return nil, err
+	}
+	return c.mkPriv(d), nil
+}
+func (c *ModelECDHCurve) NewPrivateKey(key []byte) (*ecdh.PrivateKey, error) {
+	if len(key) != c.N {
+		return nil, errors.New("crypto/ecdh: invalid private key size")
+	}
+	return c.mkPriv(key), nil
+}
+func (c *ModelECDHCurve) NewPublicKey(key []byte) (*ecdh.PublicKey, error) {
+	if len(key) != 1+2*c.N || key[0] != 4 {
+		return nil, errors.New("crypto/ecdh: invalid public key")
+	}
+	// point validation (on-curve check) may reject: arbitrary verdict per encoding
+	if !OracleBool("ecdh-oncurve-"+c.Name, key) {
+		return nil, errors.New("crypto/ecdh: invalid public key")
+	}
+	return (*ecdh.PublicKey)(unsafe.Pointer(&ModelECDHPub{C: c, B: append([]byte{}, key...)})), nil
+}
+
+func ecPriv(k *ecdh.PrivateKey) *ModelECDHPriv { return (*ModelECDHPriv)(unsafe.Pointer(k)) }
+func ecPub(k *ecdh.PublicKey) *ModelECDHPub    { return (*ModelECDHPub)(unsafe.Pointer(k)) }
+
+func M_ECDHPrivBytes(k *ecdh.PrivateKey) []byte { return append([]byte{}, ecPriv(k).D...) }
+func M_ECDHPrivPublicKey(k *ecdh.PrivateKey) *ecdh.PublicKey {
+	return (*ecdh.PublicKey)(unsafe.Pointer(ecPriv(k).Pub))
+}
+func M_ECDHPrivCurve(k *ecdh.PrivateKey) any       { return ecPriv(k).C }
+func M_ECDHPubBytes(k *ecdh.PublicKey) []byte      { return append([]byte{}, ecPub(k).B...) }
+func M_ECDHPrivECDH(k *ecdh.PrivateKey, remote *ecdh.PublicKey) ([]byte, error) {
+	p, r := ecPriv(k), ecPub(remote)
+	if p.C != r.C {
+		return nil, errors.New("crypto/ecdh: private key and public key curves do not match")
+	}
+	// own public points are valid by construction
+	Assume(OracleBool("ecdh-oncurve-"+p.C.Name, p.Pub.B))
+	s1 := Oracle("ecdh-shared-"+p.C.Name, p.C.N, p.Pub.B, r.B)
+	s2 := Oracle("ecdh-shared-"+p.C.Name, p.C.N, r.B, p.Pub.B)
+	Assume(BytesEq(s1, s2))
+	return s1, nil
+}
+
+// ---------- RSA-OAEP ----------
+
+type oaepRec struct{ key, msg, ct []byte }
+
+var oaepLog []oaepRec
+
+var errDecryption = errors.New("crypto/rsa: decryption error")
+
+func M_EncryptOAEP(h hash.Hash, random io.Reader, pub *rsa.PublicKey, msg, label []byte) ([]byte, error) {
+	if pub == nil {
+		panic("runtime error: invalid memory address or nil pointer dereference (rsa.EncryptOAEP with nil public key)")
+	}
+	k := (pub.N.BitLen() + 7) / 8
+	if len(msg) > k-2*h.Size()-2 {
+		return nil, errors.New("crypto/rsa: message too long for RSA key size")
+	}
+	seed := Fresh("oaep-seed", 4)
+	ct := OracleInj("oaep", k, KeyID(pub), msg, seed)
+	oaepLog = append(oaepLog, oaepRec{KeyID(pub), append([]byte{}, msg...), ct})
+	return ct, nil
+}
+
+func M_DecryptOAEP(h hash.Hash, random io.Reader, priv *rsa.PrivateKey, ct, label []byte) ([]byte, error) {
+	if priv == nil {
+		panic("runtime error: invalid memory address or nil pointer dereference (rsa.DecryptOAEP with nil private key)")
+	}
+	k := (priv.N.BitLen() + 7) / 8
+	if len(ct) != k {
+		return nil, errDecryption
+	}
+	id := KeyID(&priv.PublicKey)
+	for _, r := range oaepLog {
+		if len(r.ct) == len(ct) && len(r.key) == len(id) && And(BytesEq(r.ct, ct), BytesEq(r.key, id)) {
+			return append([]byte{}, r.msg...), nil
+		}
+	}
+	// a ciphertext nobody in this run produced: padding check fails or yields some message
+	if !OracleBool("oaep-valid", id, ct) {
+		return nil, errDecryption
+	}
+	n := 32
+	if len(oaepLog) > 0 {
+		n = len(oaepLog[len(oaepLog)-1].msg)
+	}
+	return Oracle("oaep-dec", n, id, ct), nil
+}
+
+// NewRSAPriv builds a private key handle for a model public key.
+func NewRSAPriv(pub *rsa.PublicKey) *rsa.PrivateKey { return &rsa.PrivateKey{PublicKey: *pub} }
+
+func NewBig(b []byte) *big.Int      { return new(big.Int).SetBytes(b) }
+func BigSub(a, b *big.Int) *big.Int { return new(big.Int).Sub(a, b) }
